@@ -5,6 +5,26 @@ ROOT = os.path.dirname(os.path.dirname(os.path.abspath(__file__)))
 
 CHECKS = {
  # id: (engine, category, technique, level text, level note, design_ref)
+ "C04": ("rawlane+agentsim", "exploration",
+   "stateful property-based testing with fault injection: generated op lists (remote envelopes, raw lane output, partial reads/writes, drops, lane failure, stop, timeouts) against the real agent runtime; session-grammar + byte-identity oracle; proptest shrinking",
+   "The real agent runtime is driven by a harness agent that speaks the lane protocol directly, so lane output (events, sync events, synced, bad tags, closed channels) is generated, together with link/sync/unlink/command envelopes to existing and missing lanes from several remotes and faults at any op position. Per (remote, lane) the frames must form `linked (event|synced)* unlinked` sessions with every linked/synced caused by a request, lane-not-found answers, closure after lane failure / stop, and byte-identical event bodies (value: non-decreasing emission order; supply: exact FIFO). A second sub-check runs the same grammar on the real SimAgent. 1e5 cases quick.",
+   "Trusts: the harness lane only emits sync responses for sync requests it has read (as a real lane does). One known finding is excluded by signature (a raw lane that closes its channels cleanly: read task and write task disagree on whether the lane exists; not reachable with AgentModel lanes).",
+   "DESIGN.md §4 C04"),
+ "C08": ("dlimpl", "exploration",
+   "differential + model-based property testing: generated legal notification sequences fed to the stand-alone client downlink tasks and to agent-hosted downlinks, compared with a reference fold and with each other; proptest shrinking",
+   "Generated legal notification sequences (linked, events incl. take/drop/clear, synced, unlinked, relink) x events_when_not_synced x terminate_on_unlinked x interleaved local writes are encoded with the real notification codec and fed to the real swimos_downlink value/map tasks and to downlinks hosted by a real agent; every callback (kind, key, old/new value, map argument, on_synced state) must equal a reference fold written from the statement, and the two implementations must produce the same normalised callback trace. Arbitrary-order sequences are checked for panics/hangs only. 1.4e5 cases quick.",
+   "Trusts: the reference fold in harness/c08/src/model.rs; frames are delivered whole (a decoder defect that belongs to C09 makes byte-wise delivery of numbers unsound); event downlinks and corrupt frames are not covered.",
+   "DESIGN.md §4 C08"),
+ "C18": ("pure", "exploration",
+   "property-based testing: grammar-generated route patterns, parameter maps, pattern pairs/sets with synthesised URIs and malformed patterns against round-trip / determinism / ambiguity-implication oracles, incl. the real ServerBuilder route check; libFuzzer target for the thorough tier",
+   "1.42e6 generated cases (quick): unapply(apply(p,m)) == m; matching is a function of the URI (unapply_str == unapply_route_uri . parse, repeatable, no empty binding); p and q both match some URI => are_ambiguous(p,q) in both orders, hence in every accepted set (also through the real ServerBuilder::build with and without introspection) a URI resolves to at most one route; injected structural faults are rejected and arbitrary text never panics.",
+   "Trusts: `at most one agent definition` is evaluated as `at most one route-table entry matches` (Routes::find_route is private and returns the first match). Over-reporting of ambiguity is outside the statement.",
+   "DESIGN.md §4 C18"),
+ "C20": ("enum+agentsim+threads", "exploration",
+   "model-based testing: bounded-exhaustive and random operation histories on the real Links structure with real uplink reporters against a reference relation, generated agent histories with introspection enabled, and a thread stress tier",
+   "Every history of register/insert/remove/remove_remote/remove_lane/remove_all/count ops to depth 7 (2 lanes x 2 remotes) and 6 (3x3), plus 3e5 random histories to length 80, is executed on the real Links with real UplinkReporters: after every op each lane reader's link count must equal the reference relation, the aggregate the total, and the sum of snapshot event counts the number counted. The same is checked on the running SimAgent with NodeReporting under link/unlink/drop/prune/stop histories at quiescent checkpoints, and k threads counting against one snapshotting thread must lose nothing.",
+   "Trusts: the Links ops are used with the discipline of agent/task/mod.rs (listed in c20/src/links.rs); only SC interleavings of the Relaxed atomics are reachable on this hardware.",
+   "DESIGN.md §4 C20"),
  "C01": ("agentsim", "exploration",
    "stateful property-based testing: generated op lists (protocol + schedule) against the real agent model + agent runtime in a harness-owned executor; history-invariant oracle; proptest shrinking",
    "2e5 (quick) generated operation lists drive the real AgentModel (value lanes with on_event trace) inside the real AgentRouteTask, polled by the harness in a paused, seeded current-thread runtime: 1-4 remotes with byte channels of 1..4096 bytes, generated lane buffer sizes, coop budgets and select seeds, commands from remotes and sets from handlers (programs, cascades). For every (remote, value lane) link session the received bodies must be values the lane held, in non-decreasing history order, and at quiescence the last one must be the lane's current value. Exploration of schedules and histories, not exhaustive.",
@@ -56,6 +76,9 @@ def main():
         },
         "engines": [
             {"name": "agentsim", "path": "/verif/harness/vsim", "serves_properties": ["C01","C02","C03","C04","C05","C06","C14","C20"], "kind_free_text": "real AgentRouteTask (agent model + runtime) polled by hand in a paused seeded tokio runtime; harness remotes with partial reads/writes; generated op lists"},
+            {"name": "rawlane", "path": "/verif/harness/c04", "serves_properties": ["C04"], "kind_free_text": "real agent runtime around a harness Agent that speaks the lane protocol; lane output is part of the generated op list"},
+            {"name": "dlimpl", "path": "/verif/harness/c08", "serves_properties": ["C08"], "kind_free_text": "real client downlink tasks and agent-hosted downlinks fed identical generated notification sequences; reference fold"},
+            {"name": "enum", "path": "/verif/harness/c12 c17 c20", "serves_properties": ["C12","C17","C20"], "kind_free_text": "bounded-exhaustive enumeration of op sequences on the real implementation with counting wakers / reference models"},
             {"name": "pure", "path": "/verif/harness/c09 c10 c15 c16 c18 c19 (+ vgen, vcommon)", "serves_properties": ["C09","C10","C15","C16","C18","C19"], "kind_free_text": "proptest TestRunner / bounded-exhaustive enumeration over pure functions with explicit oracles"},
         ],
         "checks": checks,
